@@ -337,6 +337,16 @@ ENTRIES = {
     'v.to_html': 's = v.to_html({view}).to_str(content_only={co})',
     'view_options': 'with pg.view_options({scoped}):\n  s = pg.to_html_str(v, content_only={co}{cdirect})',
     'repr_html': 's = pg.to_html(v{cview})._repr_html_()',
+    # methods of the view object itself
+    'view.render': 's = pg.views.HtmlTreeView().render(v{cview}).to_str(content_only={co})',
+    'view.content': 's = pg.views.HtmlTreeView().content(v{cview}).to_str(content_only={co})',
+    'view.summary': 's = (pg.views.HtmlTreeView().summary(v{cview}) or pg.Html()).to_str(content_only={co})',
+    'view.simple_value': 's = pg.views.HtmlTreeView().simple_value(v{cview}).to_str(content_only={co})',
+    'view.tooltip': 's = pg.views.HtmlTreeView().tooltip(v{cview}).to_str(content_only={co})',
+    'view.object_key': ('s = pg.views.HtmlTreeView().object_key(pg.KeyPath([v]), value=1, parent=None{cview})'
+                        '.to_str(content_only={co})'),
+    'view.complex_value': ('s = pg.views.HtmlTreeView().complex_value(v, parent=v, root_path=pg.KeyPath(){cview})'
+                           '.to_str(content_only={co})'),
 }
 _DIRECT = ('name', 'root_path')   # not view options: passed to the call itself
 
@@ -645,6 +655,16 @@ class Pa(pg.ContextualObject):
   t: str
   c: Ch
 '''
+PRE_CF = '''class Cf(pg.Object):
+  s: str
+  l: list
+  def _html_tree_view_config(self):
+    return dict(key_style='label', collapse_level=None, css_classes=['cf'], uncollapse=['l'],
+                child_config=dict(l=dict(enable_summary_tooltip=False)))
+  @classmethod
+  def _html_tree_view_css_styles(cls):
+    return ['.cf { color: red; }']
+'''
 NOTIP = [('enable_summary_tooltip', 'False'), ('enable_key_tooltip', 'False')]
 
 # (pos, prelude, value template ({P} = payload literal), extra options
@@ -710,6 +730,22 @@ POSITIONS = [
     ('tree.contextual', PRE_CTX, 'Pa({P}, Ch())', [('extra_flags', 'dict(use_inferred=True)')], 'str'),
     # debug tooltip shows option values
     ('tree.debug-info', '', "{{'a': 1}}", [('debug', 'True'), ('extra_flags', 'dict(note={P})')], 'none'),
+    # extension classes that configure their own rendering
+    ('tree.str-leaf', PRE_CF, 'Cf({P}, [1, {P}])', [], 'str'),
+    ('tree.str-leaf', PRE_CF, "pg.Dict(a=Cf({P}, ['x']), b=[Cf('y', [{P}])])", [], 'str'),
+    ('tree.contextual', PRE_CTX, 'pg.Dict(c=Ch(), s={P})', [], 'str'),
+    # the view object's own methods
+    ('tree.str-leaf', '', '{P}', [], 'str', 'view.simple_value'),
+    ('tree.str-leaf', '', '{P}', [], 'str', 'view.content'),
+    ('tree.str-leaf', '', "{{'k': {P}}}", [], 'str', 'view.render'),
+    ('tree.str-leaf', '', "[{P}]", [], 'str', 'view.content'),
+    ('tree.tooltip', '', '{P}', [], 'none', 'view.tooltip'),
+    ('tree.tooltip', '', "{{'k': [{P}]}}", [], 'none', 'view.tooltip'),
+    ('tree.key@label-style', '', '{P}', [], 'text', 'view.object_key'),
+    ('tree.key@summary-style', '', '{{{P}: 1}}', [], 'text', 'view.complex_value'),
+    ('tree.key@label-style', '', '{{{P}: 1}}', [('key_style', "'label'")], 'text', 'view.complex_value'),
+    ('tree.name-option', '', '1', [('name', '{P}')], 'text', 'view.summary'),
+    ('tree.title-option', '', '[1]', [('title', '{P}')], 'text', 'view.summary'),
     ('tree.debug-info', '', "{{'a': [1]}}", [('debug', 'True'), ('css_classes', "['cc']"),
                                           ('child_config', "dict(a=dict(extra_flags=dict(n={P})))")], 'none'),
 ]
@@ -740,7 +776,9 @@ def drv_positions(tier, seed):
             'max_summary_len_for_str-1/0/+1; path-like and empty dict keys'
             % (len(POSITIONS), len(PAYLOADS), len(OPTSETS)))
   r = rng(seed, 'c20-positions')
-  for pi, (pos, pre, vt, extra, expect) in enumerate(POSITIONS):
+  for pi, posdef in enumerate(POSITIONS):
+    pos, pre, vt, extra, expect = posdef[:5]
+    entry = posdef[5] if len(posdef) > 5 else 'pg.to_html_str'
     is_key = '.key' in pos or pos == 'tree.name-option'
     for oi, (oname, obase) in enumerate(OPTSETS):
       if oname == 'default' or tier != 'quick':
@@ -765,7 +803,9 @@ def drv_positions(tier, seed):
         if ex in ('str', 'text') and pos not in ('tree.diff.value',):
           kind = 'str' if ex == 'str' else 'text'
           present = (lambda v, p=p, kind=kind, pos=pos: [(kind, p.text, pos.split('tree.')[-1])])
-        Case(rec, pos, (vt, oname), pre, vsrc, opts, [p], present=present,
+        if entry.startswith('view.') and oname != 'default':
+          continue
+        Case(rec, pos, (vt, oname, entry), pre, vsrc, opts, [p], present=present, entry=entry,
              fmt=fmt, twin=(tier != 'quick' or oname == 'default')).run()
 
   # str leaves around the max_summary_len_for_str boundary.
@@ -1117,6 +1157,41 @@ CONTROL_POSITIONS = [
     ('controls.progress.name', "C.ProgressBar([C.SubProgress({P})])", 'none'),
 ]
 
+def js_string_after(code, prefix):
+  """Decodes the JavaScript string literal that follows `prefix` in `code`.
+
+  Returns ('ok', value) if a double-quoted literal follows, it is terminated,
+  and nothing but `;` follows it; else ('bad', reason).
+  """
+  i = code.index(prefix) + len(prefix)
+  if code[i:i + 1] != '"':
+    return ('bad', 'no literal')
+  i += 1
+  out = []
+  esc = {'n': '\n', 'r': '\r', 't': '\t', 'b': '\b', 'f': '\f', 'v': '\v', '0': '\0'}
+  while i < len(code):
+    c = code[i]
+    if c == '\\':
+      if i + 1 >= len(code):
+        return ('bad', 'dangling backslash')
+      n = code[i + 1]
+      if n in 'xu':
+        return ('bad', 'unexpected escape')
+      out.append(esc.get(n, n))
+      i += 2
+    elif c == '"':
+      rest = code[i + 1:].strip()
+      if rest != ';':
+        return ('bad', 'code after the literal: %r' % rest[:40])
+      return ('ok', ''.join(out))
+    elif c in '\n\r':
+      return ('bad', 'line break inside the literal')
+    else:
+      out.append(c)
+      i += 1
+  return ('bad', 'unterminated literal')
+
+
 # Html primitives: Html.escape in every accepted input form.
 ESCAPE_FORMS = [
     ('str', 'pg.Html.escape({P})'),
@@ -1165,6 +1240,38 @@ def drv_controls(tier, seed):
       vsrc2 = '(lambda v: (v.to_html(), %s, v)[-1])(%s)' % (upd.format(P=p.src(True)), vt)
       Case(rec, pos, ('update', vt), pre, lambda twin, a=vsrc, b=vsrc2: b if twin else a,
            [('content_only', 'True')], [p], entry='v.to_html_str').run()
+
+  # update() of an interactive control emits a script; the value has to stay
+  # inside its JavaScript string literal.
+  for pname in PAYLOAD_NAMES:
+    for cid, make, upd, prop, want in [
+        ('controls.update-script.text', "C.Label('old', 'tip', interactive=True)", 'v.update(text={P})',
+         'textContent', None),
+        ('controls.update-script.text', "C.Label('old', 'tip', interactive=True)",
+         'v.update(text=pg.Html({P}))', 'innerHTML', None),
+        ('controls.update-script.tooltip', "C.Label('t', 'tip', interactive=True)",
+         'v.update(tooltip={P})', 'textContent', None),
+        ('controls.update-script.tooltip', "C.Tooltip('old', for_element='.x', interactive=True)",
+         'v.update(pg.Html({P}))', 'innerHTML', None),
+        ('controls.update-script.link', "C.Label('t', link='http://a', interactive=True)",
+         'v.update(link={P})', 'href', None),
+    ]:
+      p = Plant(cid, pname, 'none')
+      code = ('import pyglove as pg\nfrom pyglove.core.views.html import controls as C\n'
+              'v = %s\nv.to_html()\nwith C.HtmlControl.track_scripts() as scripts:\n  %s\n'
+              % (make, upd.format(P=p.src())))
+      ns = {'__name__': '__main__'}
+      try:
+        exec(code, ns)  # pylint: disable=exec-used
+        lits = [js_string_after(x, 'elem.%s = ' % prop) for x in ns['scripts'] if 'elem.%s = ' % prop in x]
+        ok = bool(lits) and all(l == ('ok', p.text) for l in lits)
+        msg = 'payload %r -> %r in %r' % (p.text, lits, [x for x in ns['scripts'] if prop in x][:1])
+      except Exception as e:  # pylint: disable=broad-except
+        ok, msg = False, 'raised %r' % e
+      _record(rec, cid + '/js-string', (make, upd, pname), ok, msg,
+              code + 'x = [c for c in scripts if "elem.%s = " in c][0]\n' % prop
+              + 'import json; lit = x.split("elem.%s = ", 1)[1].rstrip().rstrip(";")\n' % prop
+              + 'assert json.loads(lit, strict=False) == %r, lit' % p.text)
 
   # Html.escape: result is text only, round-trips, keeps nothing raw.
   for form, tmpl in ESCAPE_FORMS:
@@ -1324,8 +1431,8 @@ def drv_scoping(tier, seed):
            'mk = lambda: pg.Dict(x=pg.Ref(In("z")))\nwant = pg.to_html_str(mk(), content_only=True)\n'
            'try: pg.to_html_str(mk(), content_only=True, summary_color=boom, key_color=boom, key_style="label")\n'
            'except KeyError: pass\nassert pg.to_html_str(mk(), content_only=True) == want')
-      _record(rec, 'scoping.exception/callback-raises', (vname, rname), raised,
-              'the raising callback was not reached (harness)', '')
+      if not raised:
+        continue   # this value never calls that hook
       _record(rec, 'scoping.exception/next-render-unaffected', (vname, rname),
               got == want and got2 == want2 and (got_same is None or got_same == want),
               'a rendering after a failed one differs from the same rendering before it', w)
